@@ -41,7 +41,36 @@ LIFECYCLE = [W + n for n in ('spawn_process', 'spawn_processes', 'kill_process',
 
 
 def check(run, ctx):
-    run.each(ctx, [r1, r2, r3, r4, r5])
+    run.each(ctx, [r1, r2, r3, r4, r5, r6])
+
+
+def r6(run, ctx):
+    run.rule('R6', 'descriptor numbers are read from the live socket table at every spawn')
+    from sa.dataflow import reaching_defs
+    f = ctx.fn('circus.watcher:Watcher._get_sockets_fds')
+    rd = reaching_defs(ctx, f)
+    rets = [n for n in ctx.live_nodes(f) if n.kind == 'stmt' and isinstance(n.ast, ast.Return)
+            and n.ast.value is not None]
+    if not run.need('R6', rets, 'return of the name -> descriptor table', f):
+        return
+    for r in rets:
+        for alt in rd.expand(r, r.ast.value):
+            e = alt.expr
+            site = alt.used[0].ast if alt.used else r.ast
+            if isinstance(e, ast.Dict) and not e.keys:
+                continue
+            ok = isinstance(e, ast.DictComp) and len(e.generators) == 1 and \
+                norm_text(e.generators[0].iter) == 'self.sockets.items()' and \
+                isinstance(e.value, ast.Call) and astq.call_last(e.value) == 'fileno'
+            attrs = {x.attr for x in ast.walk(e) if isinstance(x, ast.Attribute) and
+                     isinstance(x.value, ast.Name) and x.value.id == 'self'}
+            run.check('R6', ok and attrs <= {'sockets'}, 'the table is built from self.sockets at '
+                      'the time of the call', f, site,
+                      'Watcher._get_sockets_fds hands out %s: descriptor numbers remembered from '
+                      'an earlier call - reloadconfig replaces a changed socket in place (same '
+                      'mapping object, new descriptor), so later worker generations are given the '
+                      'number of a closed or unrelated descriptor' % alt.text()[:100],
+                      construct='socket descriptors cached')
 
 
 def r5(run, ctx):
